@@ -263,7 +263,10 @@ def run_tlc(module, cfg=None, modules_dir=None, extra_files=(), env=None, worker
         e["JAVA_TOOL_OPTIONS"] = jopts
         if env:
             e.update({k: str(v) for k, v in env.items()})
-        cmd = ["timeout", str(timeout), "java", "-XX:+UseParallelGC", "-Xmx" + heap, "-cp", TLA_CP, "tlc2.TLC",
+        e.setdefault("LANG", "C.UTF-8")
+        e["LC_ALL"] = "C.UTF-8"
+        cmd = ["timeout", str(timeout), "java", "-XX:+UseParallelGC", "-Xmx" + heap, "-Dfile.encoding=UTF-8", "-Dstdout.encoding=UTF-8",
+               "-Dsun.stdout.encoding=UTF-8", "-cp", TLA_CP, "tlc2.TLC",
                "-workers", str(workers), "-metadir", os.path.join(run_dir, "meta"), "-cleanup", "-noGenerateSpecTE",
                "-config", cfg]
         if simulate:
@@ -272,7 +275,8 @@ def run_tlc(module, cfg=None, modules_dir=None, extra_files=(), env=None, worker
             cmd += ["-coverage", "1"]
         cmd += [module + ".tla"]
         t = time.time()
-        p = subprocess.Popen(cmd, cwd=run_dir, env=e, stdout=subprocess.PIPE, stderr=subprocess.STDOUT, text=True, bufsize=1 << 20)
+        p = subprocess.Popen(cmd, cwd=run_dir, env=e, stdout=subprocess.PIPE, stderr=subprocess.STDOUT, text=True, bufsize=1 << 20,
+                             encoding="utf-8", errors="replace")
         tail = []
         pending = None   # TLC's pretty printer wraps very long tuples:  << "TAG",\n   "payload" >>
         for line in p.stdout:
